@@ -57,35 +57,44 @@ def startsWith (l p : List Char) : Bool := p.isPrefixOf l
 
 def loadPrefix : List Char := "load ".toList
 
-/-- `InputState::complete`.  `fc` is what the path completer answers for this call
-(`none`: no scripted answer, the real file-system lookup, which the model does not know). -/
-def complete (e : Editor) (fc : Option (List String)) : M Editor := do
-  let e1 ← (if startsWith e.input loadPrefix then do
-      let s := e.input.drop 5
-      -- byte offset of the cursor inside `s`; `self.input[..self.input_index]` panics if idx > len
-      if e.idx > e.input.length then panic "slice input[..input_index]" else
-      let pos := (((e.input.take e.idx).drop 5).map utf8Len).sum
-      -- `complete_path` slices `&s[..pos]`
-      if !isBoundary s pos then panic "complete_path: pos is not a char boundary" else
-      match fc with
-      | some list => pure { e with comps := some (list.map (fun r => loadPrefix ++ r.toList), 0) }
-      | none => .error (.unknown "file-system completion")
-    else if startsWith e.input ['l'] then pure { e with comps := some ([loadPrefix], 0) }
-    else if startsWith e.input ['s'] then pure { e with comps := some (["set ".toList], 0) }
-    else if startsWith e.input ['F'] && e.idx > 1 && e.idx ≤ 4 then
-      match e.input[1]? with
-      | some 'C' => pure { e with comps := some (["FC = ".toList], 0) }
-      | some 'D' => pure { e with comps := some (["FD = ".toList], 0) }
-      | some 'E' => pure { e with comps := some (["FE = ".toList], 0) }
-      | some 'F' => pure { e with comps := some (["FF = ".toList], 0) }
-      | _ => pure e     -- `return`
-    else pure e : M Editor)
+/-- First half of `InputState::complete`: which completions there are.  `fc` is what the path
+completer answers for this call (`none`: no scripted answer, the real file-system lookup, which
+the model does not know). -/
+def complete1 (e : Editor) (fc : Option (List String)) : M Editor :=
+  if startsWith e.input loadPrefix then
+    -- byte offset of the cursor inside `s`; `self.input[..self.input_index]` panics if idx > len
+    if e.idx > e.input.length then panic "slice input[..input_index]" else
+    -- `complete_path` slices `&s[..pos]`
+    if !isBoundary (e.input.drop 5) (((e.input.take e.idx).drop 5).map utf8Len).sum then
+      panic "complete_path: pos is not a char boundary" else
+    match fc with
+    | some list => .ok { e with comps := some (list.map (fun r => loadPrefix ++ r.toList), 0) }
+    | none => .error (.unknown "file-system completion")
+  else if startsWith e.input ['l'] then .ok { e with comps := some ([loadPrefix], 0) }
+  else if startsWith e.input ['s'] then .ok { e with comps := some (["set ".toList], 0) }
+  else if startsWith e.input ['F'] && decide (e.idx > 1) && decide (e.idx ≤ 4) then
+    match e.input[1]? with
+    | some 'C' => .ok { e with comps := some (["FC = ".toList], 0) }
+    | some 'D' => .ok { e with comps := some (["FD = ".toList], 0) }
+    | some 'E' => .ok { e with comps := some (["FE = ".toList], 0) }
+    | some 'F' => .ok { e with comps := some (["FF = ".toList], 0) }
+    | _ => .ok e     -- `return`
+  else .ok e
+
+/-- Second half: the current input is appended to the list and the first completion selected. -/
+def complete2 (e1 : Editor) : M Editor :=
   match e1.comps with
   | some (comps, i) =>
-    let comps := comps ++ [e1.input]
-    let sel ← nth comps i "comps[idx]"
-    pure { e1 with comps := some (comps, i), input := sel, idx := sel.length }
-  | none => pure e1
+    match (comps ++ [e1.input])[i]? with
+    | some sel => .ok { e1 with comps := some (comps ++ [e1.input], i), input := sel, idx := sel.length }
+    | none => panic "comps[idx]"
+  | none => .ok e1
+
+/-- `InputState::complete`. -/
+def complete (e : Editor) (fc : Option (List String)) : M Editor :=
+  match complete1 e fc with
+  | .ok e1 => complete2 e1
+  | .error f => .error f
 
 /-- `usize::MAX`. -/
 def usizeMax : Nat := 2 ^ 64 - 1
@@ -94,9 +103,9 @@ def nextCompletion (e : Editor) (fc : Option (List String)) : M Editor :=
   match e.comps with
   | some (comps, i) =>
     if comps.length = 0 then panic "remainder by zero" else
-    let i' := (i + 1) % comps.length
-    do let sel ← nth comps i' "comps[idx]"
-       pure { e with comps := some (comps, i'), input := sel, idx := sel.length }
+    match comps[(i + 1) % comps.length]? with
+    | some sel => .ok { e with comps := some (comps, (i + 1) % comps.length), input := sel, idx := sel.length }
+    | none => panic "comps[idx]"
   | none => complete e fc
 
 def prevCompletion (e : Editor) (fc : Option (List String)) : M Editor :=
@@ -104,59 +113,68 @@ def prevCompletion (e : Editor) (fc : Option (List String)) : M Editor :=
   | some (comps, i) =>
     if comps.length = 0 then panic "remainder by zero" else
     -- `(idx as isize - 1) as usize % len`
-    let i' := (if i = 0 then usizeMax else i - 1) % comps.length
-    do let sel ← nth comps i' "comps[idx]"
-       pure { e with comps := some (comps, i'), input := sel, idx := sel.length }
+    match comps[(if i = 0 then usizeMax else i - 1) % comps.length]? with
+    | some sel =>
+      .ok { e with comps := some (comps, (if i = 0 then usizeMax else i - 1) % comps.length), input := sel, idx := sel.length }
+    | none => panic "comps[idx]"
   | none => complete e fc
 
-/-- `InputState::handle`. -/
-def Editor.handle (e : Editor) (k : Key) (fc : Option (List String)) : M Editor := do
-  let e' ← (match k with
-    | .enter =>
-      pure { e with hist := if e.input.isEmpty then e.hist else e.hist ++ [String.ofList e.input],
-                    input := [], idx := 0, hidx := none }
-    | .tab => nextCompletion e fc
-    | .backtab => prevCompletion e fc
-    | .char c => do
-      let l ← insertAt e.input e.idx c
-      pure { e with input := l, idx := e.idx + 1 }
-    | .backspace =>
-      if e.idx > 0 then do
-        let l ← removeAt e.input (e.idx - 1)
-        pure { e with input := l, idx := e.idx - 1 }
-      else pure e
-    | .home => pure { e with idx := 0 }
-    | .«end» => pure { e with idx := e.input.length }
-    | .left => pure (if e.idx > 0 then { e with idx := e.idx - 1 } else e)
-    | .right => pure (if e.idx < e.input.length then { e with idx := e.idx + 1 } else e)
-    | .up =>
-      match e.hidx with
-      | some i =>
-        if i > 0 then do
-          let h ← nth e.hist (i - 1) "history[index - 1]"
-          pure { e with hidx := some (i - 1), input := h.toList, idx := h.toList.length }
-        else pure e
-      | none =>
-        match e.hist.getLast? with
-        | some h => pure { e with hidx := some (e.hist.length - 1), input := h.toList, idx := h.toList.length }
-        | none => pure e
-    | .down =>
-      match e.hidx with
-      | some i =>
-        if e.hist.length = 0 then panic "history.len() - 1 underflows" else
-        if i < e.hist.length - 1 then do
-          let h ← nth e.hist (i + 1) "history[index + 1]"
-          pure { e with hidx := some (i + 1), input := h.toList, idx := h.toList.length }
-        else if i = e.hist.length - 1 then pure { e with hidx := none, input := [], idx := 0 }
-        else pure e
-      | none => pure e
-    | .delete =>
-      if e.idx < e.input.length then do
-        let l ← removeAt e.input e.idx
-        pure { e with input := l }
-      else pure e
-    | .other => panic "unreachable!: the input field should not have received this key" : M Editor)
-  pure (if k ≠ .tab ∧ k ≠ .backtab then { e' with comps := none } else e')
+/-- The `match` of `InputState::handle`. -/
+def handle1 (e : Editor) (k : Key) (fc : Option (List String)) : M Editor :=
+  match k with
+  | .enter =>
+    .ok { e with hist := if e.input.isEmpty then e.hist else e.hist ++ [String.ofList e.input],
+                 input := [], idx := 0, hidx := none }
+  | .tab => nextCompletion e fc
+  | .backtab => prevCompletion e fc
+  | .char c =>
+    -- `Vec::insert(i, c)` panics if `i > len`
+    if e.idx ≤ e.input.length then .ok { e with input := e.input.take e.idx ++ c :: e.input.drop e.idx, idx := e.idx + 1 }
+    else panic "Vec::insert index > len"
+  | .backspace =>
+    if e.idx > 0 then
+      -- `Vec::remove(i)` panics if `i ≥ len`
+      if e.idx - 1 < e.input.length then
+        .ok { e with input := e.input.take (e.idx - 1) ++ e.input.drop e.idx, idx := e.idx - 1 }
+      else panic "Vec::remove index >= len"
+    else .ok e
+  | .home => .ok { e with idx := 0 }
+  | .«end» => .ok { e with idx := e.input.length }
+  | .left => .ok (if e.idx > 0 then { e with idx := e.idx - 1 } else e)
+  | .right => .ok (if e.idx < e.input.length then { e with idx := e.idx + 1 } else e)
+  | .up =>
+    match e.hidx with
+    | some i =>
+      if i > 0 then
+        match e.hist[i - 1]? with
+        | some h => .ok { e with hidx := some (i - 1), input := h.toList, idx := h.toList.length }
+        | none => panic "history[index - 1]"
+      else .ok e
+    | none =>
+      match e.hist.getLast? with
+      | some h => .ok { e with hidx := some (e.hist.length - 1), input := h.toList, idx := h.toList.length }
+      | none => .ok e
+  | .down =>
+    match e.hidx with
+    | some i =>
+      if e.hist.length = 0 then panic "history.len() - 1 underflows" else
+      if i < e.hist.length - 1 then
+        match e.hist[i + 1]? with
+        | some h => .ok { e with hidx := some (i + 1), input := h.toList, idx := h.toList.length }
+        | none => panic "history[index + 1]"
+      else if i = e.hist.length - 1 then .ok { e with hidx := none, input := [], idx := 0 }
+      else .ok e
+    | none => .ok e
+  | .delete =>
+    if e.idx < e.input.length then .ok { e with input := e.input.take e.idx ++ e.input.drop (e.idx + 1) }
+    else .ok e
+  | .other => panic "unreachable!: the input field should not have received this key"
+
+/-- `InputState::handle`: any key but Tab / BackTab ends a completion. -/
+def Editor.handle (e : Editor) (k : Key) (fc : Option (List String)) : M Editor :=
+  match handle1 e k fc with
+  | .ok e' => .ok (if k ≠ .tab ∧ k ≠ .backtab then { e' with comps := none } else e')
+  | .error f => .error f
 
 /-! ### Input widget layout (`impl StatefulWidget for InputWidget`) -/
 
@@ -175,34 +193,49 @@ def putCell (row : List Cell) (x : Nat) (maxw : Nat) (c : Cell) : M (List Cell) 
   if x ≥ row.length then panic "Buffer index out of range" else
   if maxw = 0 ∨ zeroWidth c.sym then .ok row else .ok (row.set x c)
 
-/-- The row the widget draws for an area of width `w` (all characters one cell wide). -/
-def renderRow (w : Nat) (input : List Char) (idx : Nat) : M (List Cell) := do
+/-- `start` of the visible window: the text is cut on the left when it is longer than the field, and
+the window is moved left to keep the cursor (with five characters of context) visible. -/
+def winStart (maxw len idx : Nat) : Nat :=
+  if len - maxw > 0 ∧ len - maxw + 5 > idx then idx - 5 else len - maxw
+
+/-- The displayed characters: dots for what is cut off on the left and on the right. -/
+def visible (w : Nat) (input : List Char) (idx : Nat) : M (List Char) :=
   if w < 3 then panic "area.width - 3 underflows" else
   let maxw := w - 3
-  let len := input.length
-  let start0 := len - maxw
-  let start := if start0 > 0 ∧ start0 + 5 > idx then idx - 5 else start0
-  let s1 ← (if start > 0 then
-      (if start + 3 > len then panic "slice string[start + 3..]" else
-        pure ("...".toList ++ input.drop (start + 3)))
-    else pure input : M (List Char))
-  let s2 ← (if s1.length > maxw then
-      (if maxw < 3 then panic "max_string_width - 3 underflows" else
-        pure (s1.take (maxw - 3) ++ "...".toList))
-    else pure s1 : M (List Char))
-  let row0 : List Cell := List.replicate w {}
-  -- prompt "> "
-  let row1 ← putCell row0 0 w ⟨'>', 'y'⟩
-  let row2 ← putCell row1 1 (w - 1) ⟨' ', 'y'⟩
-  if idx < start then panic "input_index - start underflows" else
-  let rec chars (row : List Cell) (i : Nat) : List Char → M (List Cell)
-    | [] => pure row
-    | c :: cs => do
-      if w < 2 + i then panic "area.width - 2 - i underflows" else
-      let row' ← putCell row (2 + i) (w - 2 - i) ⟨c, if i = idx - start then 'b' else '.'⟩
-      chars row' (i + 1) cs
-  let row3 ← chars row2 0 s2
-  if idx = len then putCell row3 (idx - start + 2) 1 ⟨'█', 'y'⟩ else pure row3
+  let start := winStart maxw input.length idx
+  if start > 0 ∧ start + 3 > input.length then panic "slice string[start + 3..]" else
+  let s1 := if start > 0 then "...".toList ++ input.drop (start + 3) else input
+  if s1.length > maxw then
+    (if maxw < 3 then panic "max_string_width - 3 underflows" else .ok (s1.take (maxw - 3) ++ "...".toList))
+  else .ok s1
+
+/-- The loop drawing the characters: the `i`-th at column `2 + i`, highlighted at the cursor. -/
+def drawChars (w hl : Nat) : List Cell → Nat → List Char → M (List Cell)
+  | row, _, [] => .ok row
+  | row, i, c :: cs =>
+    if w < 2 + i then panic "area.width - 2 - i underflows" else
+    match putCell row (2 + i) (w - 2 - i) ⟨c, if i = hl then 'b' else '.'⟩ with
+    | .ok row' => drawChars w hl row' (i + 1) cs
+    | .error f => .error f
+
+/-- The row the widget draws for an area of width `w` (all characters one cell wide). -/
+def renderRow (w : Nat) (input : List Char) (idx : Nat) : M (List Cell) :=
+  match visible w input idx with
+  | .error f => .error f
+  | .ok s2 =>
+    let start := winStart (w - 3) input.length idx
+    -- prompt "> "
+    match putCell (List.replicate w {}) 0 w ⟨'>', 'y'⟩ with
+    | .error f => .error f
+    | .ok row1 =>
+      match putCell row1 1 (w - 1) ⟨' ', 'y'⟩ with
+      | .error f => .error f
+      | .ok row2 =>
+        if idx < start then panic "input_index - start underflows" else
+        match drawChars w (idx - start) row2 0 s2 with
+        | .error f => .error f
+        | .ok row3 =>
+          if idx = input.length then putCell row3 (idx - start + 2) 1 ⟨'█', 'y'⟩ else .ok row3
 
 /-! ### Command grammar (nom combinators, transliterated) -/
 
@@ -231,36 +264,38 @@ def isBit (c : Char) : Bool := c = '0' || c = '1'
 def ws : P Unit := fun inp => (many1 isWs inp).map fun (_, r) => ((), r)
 def wsOpt : P Unit := fun inp => match ws inp with | some r => some r | none => some ((), inp)
 
-def nrHex : P Nat := fun inp => do
-  let (_, r) ← tagNC "0x" inp
-  let (ds, r) ← many1 isHex r
-  let v ← Parse.fromRadix 16 256 ds
-  pure (v, r)
+/-- Prefix tag, digits of the radix, value below the limit (`u8::from_str_radix` / `parse`). -/
+def number (pre : Option String) (isD : Char → Bool) (base limit : Nat) : P Nat := fun inp =>
+  match (match pre with | some t => tagNC t inp | none => some ((), inp)) with
+  | none => none
+  | some (_, r) =>
+    match many1 isD r with
+    | none => none
+    | some (ds, r) =>
+      match Parse.fromRadix base limit ds with
+      | none => none
+      | some v => some (v, r)
 
-def nrBin : P Nat := fun inp => do
-  let (_, r) ← tagNC "0b" inp
-  let (ds, r) ← many1 isBit r
-  let v ← Parse.fromRadix 2 256 ds
-  pure (v, r)
+def nrHex : P Nat := number (some "0x") isHex 16 256
+def nrBin : P Nat := number (some "0b") isBit 2 256
+def nrDec : P Nat := number none isDigit 10 256
+def nrDecUsize : P Nat := number none isDigit 10 (2 ^ 64)
 
-def nrDec : P Nat := fun inp => do
-  let (ds, r) ← many1 isDigit inp
-  let v ← Parse.fromRadix 10 256 ds
-  pure (v, r)
+def valueU8 : P Nat := fun inp =>
+  match nrHex inp with
+  | some r => some r
+  | none => match nrBin inp with
+    | some r => some r
+    | none => nrDec inp
 
-def nrDecUsize : P Nat := fun inp => do
-  let (ds, r) ← many1 isDigit inp
-  let v ← Parse.fromRadix 10 (2 ^ 64) ds
-  pure (v, r)
+def andThen (p q : P Unit) : P Unit := fun inp =>
+  match p inp with
+  | none => none
+  | some (_, r) => q r
 
-def valueU8 : P Nat := fun inp => (nrHex inp).orElse fun _ => (nrBin inp).orElse fun _ => nrDec inp
-
-def setWs : P Unit := fun inp => do let (_, r) ← tagNC "set" inp; ws r
-def unsetWs : P Unit := fun inp => do let (_, r) ← tagNC "unset" inp; ws r
-def eqWs : P Unit := fun inp => do
-  let (_, r) ← wsOpt inp
-  let (_, r) ← tag "=" r
-  wsOpt r
+def setWs : P Unit := andThen (tagNC "set") ws
+def unsetWs : P Unit := andThen (tagNC "unset") ws
+def eqWs : P Unit := andThen wsOpt (andThen (tag "=") wsOpt)
 
 /-- Result of nom's `float` on the part of the grammar the model covers: `digits [. digits]`, at most
 nine digits, not followed by something `float` might also consume.  Anything else is `unknown`. -/
@@ -302,30 +337,46 @@ def ofOpt {α} : Option (α × List Char) → Alt α
   | some (v, r) => .ok v r
   | none => .fail
 
-def cmdLoad : List Char → Alt Cmd := fun inp => ofOpt do
-  let (_, r) ← tagNC "load" inp
-  let (_, r) ← ws r
-  pure (.load r, [])
+def cmdLoad : List Char → Alt Cmd := fun inp =>
+  match tagNC "load" inp with
+  | none => .fail
+  | some (_, r) =>
+    match ws r with
+    | none => .fail
+    | some (_, r) => .ok (.load r) []       -- `rest`
 
 def inputReg : P Nat := fun inp =>
-  (tagNC "fc" inp |>.map fun (_, r) => (0, r)).orElse fun _ =>
-  (tagNC "fd" inp |>.map fun (_, r) => (1, r)).orElse fun _ =>
-  (tagNC "fe" inp |>.map fun (_, r) => (2, r)).orElse fun _ =>
-  (tagNC "ff" inp |>.map fun (_, r) => (3, r))
+  match tagNC "fc" inp with
+  | some (_, r) => some (0, r)
+  | none => match tagNC "fd" inp with
+    | some (_, r) => some (1, r)
+    | none => match tagNC "fe" inp with
+      | some (_, r) => some (2, r)
+      | none => match tagNC "ff" inp with
+        | some (_, r) => some (3, r)
+        | none => none
 
-def cmdSetReg : List Char → Alt Cmd := fun inp => ofOpt do
-  let r := match setWs inp with | some (_, r) => r | none => inp
-  let (reg, r) ← inputReg r
-  let (_, r) ← eqWs r
-  let (v, r) ← valueU8 r
-  pure (.reg reg v, r)
+/-- `<target> ws* = ws* <byte>` after an optional / mandatory `set`. -/
+def assignByte (target : P Nat) (mk : Nat → Nat → Cmd) (r : List Char) : Alt Cmd :=
+  match target r with
+  | none => .fail
+  | some (i, r) =>
+    match eqWs r with
+    | none => .fail
+    | some (_, r) =>
+      match valueU8 r with
+      | none => .fail
+      | some (v, r) => .ok (mk i v) r
 
-def cmdSetIrg : List Char → Alt Cmd := fun inp => ofOpt do
-  let (_, r) ← setWs inp
-  let (_, r) ← tagNC "IRG" r
-  let (_, r) ← eqWs r
-  let (v, r) ← valueU8 r
-  pure (.irg v, r)
+def cmdSetReg : List Char → Alt Cmd := fun inp =>
+  assignByte inputReg .reg (match setWs inp with | some (_, r) => r | none => inp)
+
+def irgTag : P Nat := fun inp => match tagNC "IRG" inp with | some (_, r) => some (0, r) | none => none
+
+def cmdSetIrg : List Char → Alt Cmd := fun inp =>
+  match setWs inp with
+  | none => .fail
+  | some (_, r) => assignByte irgTag (fun _ v => .irg v) r
 
 def floatArg (name : String) (mk : F32.Bits → Cmd) (r : List Char) : Alt Cmd :=
   match (do let (_, r) ← tagNC name r; eqWs r) with
@@ -349,10 +400,13 @@ def cmdSetIx : List Char → Alt Cmd := fun inp =>
     | .fail => floatArg "I2" .i2 r
     | o => o
 
-def pre (p : P Unit) (name : String) (c : Cmd) : List Char → Option (Cmd × List Char) := fun inp => do
-  let (_, r) ← p inp
-  let (_, r) ← tagNC name r
-  pure (c, r)
+def pre (p : P Unit) (name : String) (c : Cmd) : List Char → Option (Cmd × List Char) := fun inp =>
+  match p inp with
+  | none => none
+  | some (_, r) =>
+    match tagNC name r with
+    | none => none
+    | some (_, r) => some (c, r)
 
 def firstOf {α} : List (List Char → Option (α × List Char)) → List Char → Option (α × List Char)
   | [], _ => none
@@ -365,21 +419,38 @@ def cmdSetUiox : List Char → Alt Cmd := fun inp => ofOpt <|
   firstOf [pre setWs "UIO1" (.uio1 true), pre setWs "UIO2" (.uio2 true), pre setWs "UIO3" (.uio3 true),
            pre unsetWs "UIO1" (.uio1 false), pre unsetWs "UIO2" (.uio2 false), pre unsetWs "UIO3" (.uio3 false)] inp
 
-def cmdShow : List Char → Alt Cmd := fun inp => ofOpt do
-  let (_, r) ← tagNC "show" inp
-  let (_, r) ← ws r
-  (tagNC "register" r |>.map fun (_, r) => (Cmd.show false, r)).orElse fun _ =>
-  (tagNC "memory" r |>.map fun (_, r) => (Cmd.show true, r))
+def cmdShow : List Char → Alt Cmd := fun inp =>
+  match tagNC "show" inp with
+  | none => .fail
+  | some (_, r) =>
+    match ws r with
+    | none => .fail
+    | some (_, r) =>
+      match tagNC "register" r with
+      | some (_, r) => .ok (.show false) r
+      | none =>
+        match tagNC "memory" r with
+        | some (_, r) => .ok (.show true) r
+        | none => .fail
 
-def cmdNext : List Char → Alt Cmd := fun inp => ofOpt do
-  let (_, r) ← tagNC "next" inp
-  match (do let (_, r') ← ws r; nrDecUsize r') with
-  | some (n, r') => pure (.next n, r')
-  | none => pure (.next 1, r)
+def cmdNext : List Char → Alt Cmd := fun inp =>
+  match tagNC "next" inp with
+  | none => .fail
+  | some (_, r) =>
+    match ws r with
+    | none => .ok (.next 1) r
+    | some (_, r') =>
+      match nrDecUsize r' with
+      | some (n, r'') => .ok (.next n) r''
+      | none => .ok (.next 1) r
 
-def cmdQuit : List Char → Alt Cmd := fun inp => ofOpt <|
-  (tagNC "quit" inp |>.map fun (_, r) => (Cmd.quit, r)).orElse fun _ =>
-  (tagNC "exit" inp |>.map fun (_, r) => (Cmd.quit, r))
+def cmdQuit : List Char → Alt Cmd := fun inp =>
+  match tagNC "quit" inp with
+  | some (_, r) => .ok .quit r
+  | none =>
+    match tagNC "exit" inp with
+    | some (_, r) => .ok .quit r
+    | none => .fail
 
 def altAll : List (List Char → Alt Cmd) → List Char → Alt Cmd
   | [], _ => .fail
@@ -388,15 +459,20 @@ def altAll : List (List Char → Alt Cmd) → List Char → Alt Cmd
 inductive ParseRes | cmd (c : Cmd) | invalid | unknown
   deriving Repr, DecidableEq
 
-/-- `parse_cmd`: `all_consuming(delimited(ws_opt, alt((...)), ws_opt))`. -/
-def parseCmd (line : List Char) : ParseRes :=
-  let inp := match wsOpt line with | some (_, r) => r | none => line
-  match altAll [cmdLoad, cmdSetReg, cmdSetIrg, cmdSetTemp, cmdSetIx, cmdSetJx, cmdSetUiox, cmdShow, cmdNext, cmdQuit] inp with
-  | .ok c rest =>
-    let rest := match wsOpt rest with | some (_, r) => r | none => rest
-    if rest.isEmpty then .cmd c else .invalid
+/-- What `ws_opt` leaves. -/
+def stripWs (l : List Char) : List Char := l.dropWhile isWs
+
+def allCmds : List (List Char → Alt Cmd) :=
+  [cmdLoad, cmdSetReg, cmdSetIrg, cmdSetTemp, cmdSetIx, cmdSetJx, cmdSetUiox, cmdShow, cmdNext, cmdQuit]
+
+/-- `all_consuming(.. ws_opt)`: only blanks may follow the command. -/
+def finish : Alt Cmd → ParseRes
+  | .ok c rest => if (stripWs rest).isEmpty then .cmd c else .invalid
   | .fail => .invalid
   | .unknown => .unknown
+
+/-- `parse_cmd`: `all_consuming(delimited(ws_opt, alt((...)), ws_opt))`. -/
+def parseCmd (line : List Char) : ParseRes := finish (altAll allCmds (stripWs line))
 
 /-! ### Session state and event dispatch (`tui/mod.rs`) -/
 
